@@ -9,6 +9,8 @@
 use std::ffi::OsString;
 
 pub mod grammars;
+#[cfg(feature = "derive")]
+pub mod derived;
 
 fn show<T: std::fmt::Debug>(r: Result<T, bpaf::ParseFailure>) -> String {
     match r {
